@@ -57,9 +57,9 @@ def bounded_part(pid, tier):
                 "raises nothing; strict mode raises only from a raise statement that is under its dead-end condition ('..' at the "
                 "root, literal component no child matches, root component), and whenever it raises GL is empty (sibling-unique names)")
         res.bounded.append({"what": "BOUNDED stand-in (never counted as proved): " + what, "bound": json.dumps(spec) +
-                            " - all ordered trees up to `nodes` nodes x 3 name sets (incl. regex metacharacters, case variants, "
-                            "duplicates) x 2 separators/path attributes x paths of up to `comps` components over 15 components x "
-                            "ignorecase x relax (x 3 cache histories for C08)",
+                            " - all ordered trees up to `nodes` nodes x 4 name sets (incl. regex metacharacters, case variants, "
+                            "duplicates, missing attribute) x 2 separators/path attributes (+ a two-character separator on the first name set) x paths of up to `comps` components over 15 components x "
+                            "ignorecase x relax (x 3 cache histories for C08); plus names and 1-2 component paths over [ ] ! + characters on trees up to 4 nodes",
                             "evaluations": out.get("evaluations", 0), "distinct_nontrivial": out.get("nontrivial", 0),
                             "rule": "one case = (tree, names, separator, start, path, ignorecase, relax, history)", "found": out.get("found")})
         if out.get("found"):
